@@ -28,10 +28,12 @@ def ext_model_copy(eng, st, recv, args, kw, node):
         raise Unsupported("model_copy(update=<non-literal>)")
     ref = st.new_ref("copy")
     new = V(recv.t, ref)
+    updk = set(upd.items) if upd is not None else set()
     for f in _copy_fields_of(eng, st, recv.t[1]):
-        st.write_field(new, f, st.read_field(recv, f))
+        if f not in updk:
+            st.init_field(new, f, st.read_field(recv, f))
     for k, v in (upd.items if upd is not None else {}).items():
-        st.write_field(new, k, v)
+        st.init_field(new, k, v)
     eng.ctx.tags.add("AX_pydantic_model_copy")
     return new
 
@@ -174,7 +176,7 @@ def ext_submit(eng, st, recv, args, kw, node):
     if val.t[0] != "obj":
         raise Unsupported("submit of a callable that does not return an object")
     fut = V(("obj", "Future"), st.new_ref("future"))
-    st.write_field(fut, "value", V(("obj", "Agent"), val.z))
+    st.init_field(fut, "value", V(("obj", "Agent"), val.z))
     eng.ctx.tags.add("AX_concurrent_futures")
     return fut
 
@@ -208,7 +210,8 @@ def construct(eng, st, ci, args, kw, node):
             raise Unsupported(f"{ci.name}.__init__ has no contract")
         ref = V(("obj", ci.name), st.new_ref(ci.name.lower()))
         env = eng.bind_args(init[0], [], dict(kw), node, self_v=ref)
-        eng.apply_contract(st, c, init[0], eng.src.modules[init[1].module], env, node)
+        # the object is fresh: its cells are unconstrained, so the `self.f` assigns of the constructor need no havoc
+        eng.apply_contract(st, c, init[0], eng.src.modules[init[1].module], env, node, fresh_self=True)
         return ref
     ref = V(("obj", ci.name), st.new_ref(ci.name.lower()))
     pydantic_init(eng, st, ref, ci, kw, node)
@@ -228,9 +231,9 @@ def pydantic_init(eng, st, ref, ci, kw, node):
             base = ft[1] if ft[0] == "opt" else ft
             if base[0] == "list" and v.t[0] in ("list", "nd"):
                 v = st.new_seq(base[1], "list", st.seq_len(v), st.seq_elems(v), "field")   # pydantic copies lists
-            st.write_field(ref, name, v)
+            st.init_field(ref, name, v)
         elif default is not None:
-            st.write_field(ref, name, eng.eval(st, default))
+            st.init_field(ref, name, eng.eval(st, default))
         else:
             raise Unsupported(f"missing required field {name} of {ci.name}")
     # validators of the class run after the fields are set; each must have a contract with a `raises` clause
